@@ -35,7 +35,9 @@ HdrSetUnsent(o) == /\ RetI(o) > 0 /\ (FlushI(o) = 0 \/ FlushI(o) > RetI(o))
 RespThenErr(o) == Single(o.shape) /\ SendI(o) > 0 /\ RetI(o) > 0 /\ o.steps[RetI(o)].code # "OK"
 TrlAfterResp(o) == Single(o.shape) /\ SendI(o) > 0 /\ \E i \in SendI(o)..Len(o.steps) : o.steps[i].s = "settrl"
 
-TermTag(o) == IF PreCx(o) THEN "context-ended-before-call"
+WithCause(o) == HasCx(o) /\ o.steps[CxI(o)].x = 1
+TermTag(o) == (IF WithCause(o) THEN "cause+" ELSE "") \o
+              IF PreCx(o) THEN "context-ended-before-call"
               ELSE IF SawCx(o) THEN "handler-returned-after-seeing-context-end"
               ELSE IF RetAfterCx(o) THEN "handler-returned-after-context-end"
               ELSE IF HasCx(o) THEN "context-end"
